@@ -23,8 +23,8 @@ from .common import hexs
 
 PROP = "C20"
 CORPUS = os.path.join(common.ROOT, "corpus", PROP)
-OPEN = ["C20_guarded (Props/C20.lean): the guarded property over the WHOLE enumerated space is executed exhaustively "
-        "(compiled model + real clap, case by case) but proved in the kernel only on Wrap.core; missing lemma: "
+OPEN = ["C20_guarded / C20_full (Props/C20.lean): the property over the WHOLE enumerated space is executed exhaustively "
+        "(compiled model + real clap, case by case) but proved in the kernel only on C20.space = Wrap.core; missing lemma: "
         "independence/commutation of option segments in Cli.run"]
 
 
@@ -133,6 +133,8 @@ def ev_cond(c, vals):
         return vals[c[1]] is not None
     if k == "nonEmpty":
         return isinstance(vals[c[1]], (list, str)) and len(vals[c[1]]) > 0
+    if k == "isLit":
+        return vals[c[1]] == c[2]
     if k == "not":
         return not ev_cond(c[1], vals)
     if k == "and":
@@ -172,15 +174,25 @@ def ev_groups(b, vals):
         if t[0] == "orLit":
             v = vals[t[1]]
             return ("value", js_str(v) if (v is not None and js_truthy(v)) else t[2])
+        if t[0] == "attach":
+            inner = tok(t[2], elem)
+            vs = list(inner[1]) if inner[0] in ("joined", "values") else [inner[1]]
+            text = (inner[2] if inner[0] == "joined" else ",").join(vs) if inner[0] in ("joined", "values") else inner[1]
+            return ("attached", t[1], vs, text)
         raise ValueError(t)
+    norm = {k: v for k, v in (b.get("norm") or [])}
     for st in b["steps"]:
         if not ev_cond(st[1], vals):
             continue
         if st[0] == "push":
             groups.append([tok(t, None) for t in st[2]])
-        else:
+        elif st[0] == "each":
             for e in vals[st[2]] or []:
                 groups.append([tok(t, e) for t in st[3]])
+        else:
+            for e0 in vals[st[2]] or []:
+                for e in norm.get(e0, [e0]):
+                    groups.append([tok(t, e) for t in st[3]])
     return groups
 
 
@@ -188,6 +200,13 @@ def expectations(groups):
     """-> (subcommand, [(kind, key, expected)]) : ('pos', k, [..]) ('flag', long) ('short', c) ('opt', long, [..])"""
     exps, k, sub = [], 0, None
     opts = {}
+    trailing = False                      # a literal `--` was pushed: everything after it is a positional
+
+    def add_opt(name, vs):
+        if name not in opts:
+            opts[name] = []
+            exps.append(("opt", name, opts[name]))
+        opts[name] += vs
     for gi, g in enumerate(groups):
         i = 0
         if gi == 0 and g and g[0][0] == "lit":
@@ -195,15 +214,23 @@ def expectations(groups):
             i = 1
         while i < len(g):
             t = g[i]
-            if t[0] == "lit" and t[1].startswith("--") and len(t[1]) > 2:
+            if trailing:
+                if t[0] in ("values", "joined"):
+                    exps.append(("pos", k, list(t[1])))
+                elif t[0] == "attached":
+                    exps.append(("pos", k, ["--" + t[1] + "=" + t[3]]))
+                else:
+                    exps.append(("pos", k, [t[1]]))
+                k += 1
+            elif t[0] == "lit" and t[1] == "--":
+                trailing = True
+            elif t[0] == "attached":
+                add_opt(t[1], list(t[2]))
+            elif t[0] == "lit" and t[1].startswith("--") and len(t[1]) > 2:
                 name = t[1][2:]
                 nxt = g[i + 1] if i + 1 < len(g) else None
                 if nxt and (nxt[0] in ("value", "joined") or (nxt[0] == "lit" and not nxt[1].startswith("-"))):
-                    vs = nxt[1] if nxt[0] == "joined" else [nxt[1]]
-                    if name not in opts:
-                        opts[name] = []
-                        exps.append(("opt", name, opts[name]))
-                    opts[name] += vs
+                    add_opt(name, list(nxt[1]) if nxt[0] == "joined" else [nxt[1]])
                     i += 2
                     continue
                 exps.append(("flag", name))
@@ -455,6 +482,13 @@ def run(ctx):
             ctx.notes.append("wrappers translator failed: enumeration continues on the last extracted builders")
         except OSError:
             ir = None
+    try:
+        from translate import wrappers_verdict
+        wrappers_verdict.run()
+        live = common.run_model(["c20live"])[0]
+        ctx.cov["findings_in_force"] = [] if live == "-" else live.split(" ")
+    except Exception as ex:                                   # noqa: BLE001
+        ctx.broke("translator", "translate/wrappers_verdict.py", f"{type(ex).__name__}: {ex}")
     # 2 prove ---------------------------------------------------------------------------------------
     proved = ctx.prove("RModel.Props.C20")
     if not proved:
@@ -612,7 +646,20 @@ def replay(ctx, path):
     print("model:", model[:400])
     slug = obj.get("finding")
     if slug:
-        # corpus witness of a listed finding: reproduced exactly as recorded?
+        # corpus witness of a finding about a WRAPPER: the parser's answer to this argv does not change when the
+        # wrapper is repaired; what changes is that no builder produces the argv any more (generated verdict)
+        try:
+            from translate import cli_grammar, wrappers, wrappers_verdict
+            cli_grammar.run(); wrappers.run(); wrappers_verdict.run()
+            live = common.run_model(["c20live"])[0].split(" ")
+        except Exception as ex:                               # noqa: BLE001
+            ctx.broke("translator", "translate (replay)", f"{type(ex).__name__}: {ex}")
+            return
+        if slug not in live:
+            print(f"finding {slug} is repaired: on the current sources no builder falls under it any more "
+                  f"(the parser still answers {impl[:60]!r} to the recorded argv)")
+            return
+        # reproduced exactly as recorded?
         if impl == obj.get("observed"):
             if not ctx.known(slug):
                 ctx.violation("argv", case, expected=obj.get("expected"), observed=impl, model_prediction=model,
